@@ -101,6 +101,8 @@ def fw_obs(trace, motor_pins=()):
             out.append((tm, "PINMODE", int(p[0]), int(p[1])))
         elif k in ("TONE", "NOTONE"):
             out.append((tm, k, *[int(x) for x in p[:2]]))
+        elif k == "LCD_GLYPH":
+            out.append((tm, "GLYPH", int(p[0]), int(p[1]), [int(x) for x in p[2:10]]))
     return out
 
 
@@ -126,6 +128,8 @@ def host_obs(events):
             out.append((t, "SREAD", e[2]))
         elif k == "PINMODE":
             out.append((t, "PINMODE", e[2], e[3]))
+        elif k == "GLYPH":
+            out.append((t, "GLYPH", e[2], e[3], list(e[4])))
         elif k == "MOTOR":
             pins, a, b, duty, exact = e[2], e[3], e[4], e[5], e[6]
             out.append((t, "PIN", pins[0], 255 * a))
@@ -213,6 +217,8 @@ def compare(host_events, trace, *, motor_duty_tol=1, ignore_initial_servo=True):
             ok = ho[2] == fo[2]
         elif k == "SREAD":
             ok = ho[2] == fo[2]
+        elif k == "GLYPH":
+            ok = tuple(ho[2:4]) == tuple(fo[2:4]) and list(ho[4]) == list(fo[4])
         if not ok:
             return f"event {i}: host {_fmt(ho)} vs firmware {_fmt(fo)}"
         # timing: change points agree to within 1 ms per delay so far
